@@ -98,13 +98,26 @@ class Runner:
             q.put(h)
         nworkers = max(1, min(self.jobs, len(hs)))
 
+        budget = [float(os.environ.get("VERIF_MEM_GB", "48"))]
+        cv = threading.Condition()
+
         def work(w):
             while True:
                 try:
                     h = q.get_nowait()
                 except queue.Empty:
                     return
-                self.run_one(h, w)
+                need = min(float(h.mem_gb), float(os.environ.get("VERIF_MEM_GB", "48")))
+                with cv:
+                    while budget[0] < need:
+                        cv.wait()
+                    budget[0] -= need
+                try:
+                    self.run_one(h, w)
+                finally:
+                    with cv:
+                        budget[0] += need
+                        cv.notify_all()
 
         ts = [threading.Thread(target=work, args=(w,)) for w in range(nworkers)]
         for t in ts:
